@@ -607,7 +607,9 @@ theorem step_inv2 (sp : Spec) (w : World) (ev : Event) (hpc : PausedClean w) (h 
             · exact same _ _ _ id id
             · split
               · exact same _ _ _ id id
-              · exact set_inc _ _ _ running_incomplete
+              · split
+                · exact same _ _ _ id id
+                · exact set_inc _ _ _ running_incomplete
     | jobRefresh t =>
       simp only [step]
       split
